@@ -82,6 +82,8 @@ Eval(regs, mem, op) ==
     [] op.k = "imm" -> IntV(op.w)
     [] op.k = "fimm" -> FpV(op.x)
     [] op.k = "ref" -> FnV(op.f)
+    [] op.k = "dref" -> PtrV(op.b, 0)                   \* address of a module-level data/bss item (a fixed memory block)
+    [] op.k = "blk" -> RegVal(regs, op.r)               \* block argument: the register holds the block's address
     [] op.k = "mem" -> LET a == Addr(regs, op) IN IF IsBad(a) THEN a ELSE LoadMem(mem, op.ty, a.b, a.o)
 
 (* integer value expected: pointers are not numbers; AsInt needs all 64 bits, AsInt32 only the low half *)
@@ -267,14 +269,23 @@ Step ==
                          ELSE /\ frames' = SetTop([Top EXCEPT !.regs[I.res[1].r] = ExtResult(args[1], args[2]), !.pc = nxt, !.ovf = NoOvf])
                               /\ UNCHANGED <<mem, status, why, result>>
             ELSE LET cf == IF I.callee.k = "reg" THEN RegVal(R, I.callee.r).f ELSE I.callee.f
-                     g == prog.funcs[cf] IN
+                     g == prog.funcs[cf]
+                     byval == {r \in 1..Len(g.params) : g.params[r] = "blk16"}          \* blocks passed by value (at most one here)
+                     byref == {r \in 1..Len(g.params) : g.params[r] = "rblk16"}
+                     blkbad == \E r \in byval \cup byref : args[r].t # "p" \/ ~InBlock(mem, args[r].b, args[r].o, 16)
+                     bv == IF byval = {} THEN 0 ELSE CHOOSE r \in byval : TRUE IN
                  IF Len(frames) >= 12 THEN GoUndef("call depth bound")
+                 ELSE IF blkbad THEN GoUndef("block argument is not the address of a live 16-byte block")
                  ELSE /\ frames' = Append(SetTop([Top EXCEPT !.ovf = NoOvf]),
                                           [f |-> cf, pc |-> 1,
                                            regs |-> [r \in 1..Len(g.regty) |->
-                                                       IF r <= Len(g.params) THEN Narrow(g.params[r], args[r]) ELSE UndefV],
+                                                       IF r = bv THEN PtrV(Len(mem) + 1, 0)     \* the callee sees its own copy
+                                                       ELSE IF r <= Len(g.params) THEN Narrow(g.params[r], args[r]) ELSE UndefV],
                                            base |-> Len(mem), ovf |-> NoOvf])
-                      /\ UNCHANGED <<mem, log, status, why, result>>
+                      /\ mem' = IF bv = 0 THEN mem
+                                ELSE Append(mem, [sz |-> 16, live |-> TRUE,
+                                                  cells |-> SubSeq(mem[args[bv].b].cells, args[bv].o + 1, args[bv].o + 16)])
+                      /\ UNCHANGED <<log, status, why, result>>
        [] op = "ret" ->
             LET vals == [i \in 1..Len(I.s) |-> Eval(R, mem, I.s[i])]
                 badv == {i \in 1..Len(vals) : IsBad(vals[i])}
